@@ -240,7 +240,7 @@ func TestC08(t *testing.T) {
 	hB, ctlB, recB := newHarness(true)
 
 	rng := r.Rng("cases")
-	n := r.N(1500, 40000)
+	n := r.N(1500, 80000)
 	protos := []proto.Protocol{47, 340, 759, 760, 761, 763, 764, 767, 775}
 	erKinds := []string{"er-valid", "er-wrong-token", "er-short-token", "er-other-key", "er-bad-secret", "er-15-byte-secret", "er-swapped"}
 	saltedKinds := []string{"er-salted-random-sig", "er-salted-token-as-sig", "er-salted-empty-sig"}
